@@ -65,6 +65,8 @@ type Sub struct {
 	StallAt int   `json:"stall_at,omitempty"`
 	StallNs int64 `json:"stall_ns,omitempty"`
 	SlowNs  int64 `json:"slow_ns,omitempty"`
+	// Hostile (C12): the request is adversarial; only "no panic" is judged.
+	Hostile string `json:"hostile,omitempty"`
 }
 
 // Scenario for the subscribe harness.
@@ -189,7 +191,12 @@ func (H) Generate(rng *simrt.Rand, prop, tier string) (any, simrt.Config) {
 	}
 	ns := 1 + rng.Pick(5, 4, 2, 1)
 	for i := 0; i < ns; i++ {
-		sc.Subs = append(sc.Subs, genSub(rng, u, prop))
+		sb := genSub(rng, u, prop)
+		if prop == "C12" && rng.Chance(0.6) {
+			sb.Hostile = []string{"poll-first", "nil-prefix", "empty-target", "unknown-mode", "no-subscriptions", "nil-path", "origin-conflict",
+				"prefix-elems-with-path-origin", "huge-keys", "empty-names", "meta-path", "empty-request", "deprecated-element-path", "glob-target-with-origin"}[rng.Intn(14)]
+		}
+		sc.Subs = append(sc.Subs, sb)
 	}
 	if prop == "C14" {
 		// make sure a single-target stream subscriber watches a target that gets removed
@@ -422,6 +429,49 @@ type world struct {
 }
 
 func reqOf(s Sub) *pb.SubscribeRequest {
+	r := plainReq(s)
+	sl := r.GetSubscribe()
+	switch s.Hostile {
+	case "":
+	case "poll-first":
+		return &pb.SubscribeRequest{Request: &pb.SubscribeRequest_Poll{Poll: &pb.Poll{}}}
+	case "empty-request":
+		return &pb.SubscribeRequest{}
+	case "nil-prefix":
+		sl.Prefix = nil
+	case "empty-target":
+		sl.Prefix.Target = ""
+	case "unknown-mode":
+		sl.Mode = 99
+	case "no-subscriptions":
+		sl.Subscription = nil
+	case "nil-path":
+		sl.Subscription = append(sl.Subscription, &pb.Subscription{}, nil)
+	case "origin-conflict":
+		sl.Prefix.Origin = "a"
+		sl.Subscription = append(sl.Subscription, &pb.Subscription{Path: &pb.Path{Origin: "b", Elem: []*pb.PathElem{{Name: "x"}}}})
+	case "prefix-elems-with-path-origin":
+		sl.Prefix.Elem = []*pb.PathElem{{Name: "p"}}
+		sl.Subscription = append(sl.Subscription, &pb.Subscription{Path: &pb.Path{Origin: "b", Elem: []*pb.PathElem{{Name: "x"}}}})
+	case "huge-keys":
+		e := &pb.PathElem{Name: "k", Key: map[string]string{}}
+		for i := 0; i < 300; i++ {
+			e.Key[fmt.Sprint("k", i)] = "v"
+		}
+		sl.Subscription = append(sl.Subscription, &pb.Subscription{Path: &pb.Path{Elem: []*pb.PathElem{e}}})
+	case "empty-names":
+		sl.Subscription = append(sl.Subscription, &pb.Subscription{Path: &pb.Path{Elem: []*pb.PathElem{{Name: ""}, {Name: ""}}}})
+	case "meta-path":
+		sl.Subscription = append(sl.Subscription, &pb.Subscription{Path: &pb.Path{Elem: []*pb.PathElem{{Name: "meta"}}}}, &pb.Subscription{Path: &pb.Path{Elem: []*pb.PathElem{{Name: "meta"}, {Name: "*"}, {Name: "*"}}}})
+	case "deprecated-element-path":
+		sl.Subscription = append(sl.Subscription, &pb.Subscription{Path: &pb.Path{Element: []string{"a", "*"}}})
+	case "glob-target-with-origin":
+		sl.Prefix.Target, sl.Prefix.Origin = "*", "*"
+	}
+	return r
+}
+
+func plainReq(s Sub) *pb.SubscribeRequest {
 	sl := &pb.SubscriptionList{Prefix: gen.Path(s.Prefix, false, 0), UpdatesOnly: s.UpdatesOnly}
 	sl.Prefix.Target, sl.Prefix.Origin = s.Target, s.Origin
 	switch s.Mode {
@@ -908,7 +958,7 @@ func (w *world) judge(x *common.Exec, final map[string]map[string]string, finalT
 				}
 			}
 		}
-		if !sr.started {
+		if !sr.started || sr.sub.Hostile != "" {
 			continue
 		}
 		// ---- request-level outcomes
@@ -1369,7 +1419,7 @@ func (w *world) judgeStalls(x *common.Exec) {
 		}
 	}
 	for _, sr := range w.subs {
-		if sr.st == nil || !sr.started {
+		if sr.st == nil || !sr.started || sr.sub.Hostile != "" {
 			continue
 		}
 		delivered := len(sr.resps)
@@ -1490,7 +1540,7 @@ func (w *world) judgeEnd(x *common.Exec) {
 	// C14: a single-target stream whose target was removed ends with OK after
 	// delivering the whole-target delete.
 	for _, sr := range w.subs {
-		if sr.sub.Mode != "stream" || sr.sub.Target == "*" || !sr.started || sr.sub.StallNs != 0 {
+		if sr.sub.Mode != "stream" || sr.sub.Target == "*" || !sr.started || sr.sub.StallNs != 0 || sr.sub.Hostile != "" {
 			continue
 		}
 		if !w.allowed(sr, sr.sub.Target) || w.badUser(sr) {
